@@ -1,19 +1,19 @@
 ---------------------------- MODULE Trace_YRotate ----------------------------
 (***************************************************************************)
-(* C->S binding for C19: each record is one run of the real                *)
-(* eyaml-rotate-keys main() on a generated file:                           *)
-(*   id, doc (slots/objs as in YRotate), backup (was --backup given),      *)
+(* C->S binding for C19: each record is one invocation of the real         *)
+(* eyaml-rotate-keys main() on one or more generated files:                *)
+(*   id, files (documents, slots/objs as in YRotate), backup (--backup?),  *)
 (*   events  the merged log of the stand-in eyaml executable (Decrypt /    *)
 (*           Encrypt) and of the recording wrappers installed in the       *)
-(*           command module's namespace (Find / Node / Store / Backup /    *)
-(*           Write / Exit), in the order they happened,                    *)
-(*   file    the view (identity class, key, plaintext per position) of the *)
-(*           file as reloaded after the run (compared when filecheck: the  *)
-(*           file was rewritten and loads).                                *)
+(*           command module's namespace (NextFile / Find / Node / Store /  *)
+(*           Backup / Write / Exit), in the order they happened,           *)
+(*   views   per file the view (identity class, key, plaintext per         *)
+(*           position) of the file as reloaded after the run, compared     *)
+(*           where filecheck[i] (the file was rewritten and loads).        *)
 (* The run is accepted iff folding RStep - the SAME function MC_YRotate    *)
 (* model-checks - over the events never rejects, ends in Done, every       *)
-(* clause of the property holds in every state on the way, and the         *)
-(* rewritten file shows the final state.  The verdict is total: it names   *)
+(* clause of the property holds in every state on the way, and every       *)
+(* rewritten file shows its final state.  The verdict is total: it names   *)
 (* the first rejected event, the clause, and the events the specification  *)
 (* would have accepted there.                                              *)
 (***************************************************************************)
@@ -30,15 +30,18 @@ Run(s, ev, i) ==
        ELSE Run(n, ev, i + 1)
 
 Verdict(r) ==
-  LET res == Run(RInit(r.doc, r.backup), r.events, 1)
+  LET res == Run(RInit(r.files, r.backup), r.events, 1)
       s == res.s
+      fs == FilesOf(s)
+      badfile == {i \in 1..Len(fs) : i <= Len(r.views) /\ r.filecheck[i] /\ r.views[i] # View(fs[i].heap, fs[i].bind)}
       why == IF res.why # "" THEN res.why
              ELSE IF s.pc # "Done" THEN "incomplete"
-             ELSE IF r.filecheck /\ r.file # View(s.heap, s.bind) THEN "file"
+             ELSE IF Len(fs) # Len(r.files) THEN "files"
+             ELSE IF badfile # {} THEN "file"
              ELSE ""
-  IN [id |-> r.id, ok |-> (why = ""), why |-> why, at |-> res.at, pc |-> s.pc, status |-> s.status,
+  IN [id |-> r.id, ok |-> (why = ""), why |-> why, at |-> res.at, pc |-> s.pc, status |-> s.status, fi |-> s.fi,
       expect |-> IF why = "reject" \/ why = "incomplete" THEN Expect(s) ELSE {},
-      view |-> View(s.heap, s.bind), ndec |-> s.ndec, nenc |-> s.nenc]
+      views |-> [i \in 1..Len(fs) |-> View(fs[i].heap, fs[i].bind)]]
 
 ASSUME JsonSerialize(IOEnv.VERDICTS_OUT, [i \in 1..Len(Recs) |-> Verdict(Recs[i])])
 =============================================================================
